@@ -75,7 +75,7 @@ cell.material = montepy.data_inputs.data_parser.parse_data(Input(["m1 1001.80c 1
 cell.atom_density = 0.0123456
 bad += not show("cell '1 1 0.5 -1'.atom_density", cell.format_for_mcnp_input((6, 2, 0))[0].split()[2], 0.0123456)
 
-# fixed da24dfa: a displacement entry that an earlier write left off (jumps at the end of an input are dropped)
+# fixed eb991ca: a displacement entry that an earlier write left off (jumps at the end of an input are dropped)
 import numpy as np  # noqa: E402
 
 tr = montepy.data_inputs.data_parser.parse_data(Input(["tr1 0 2j"], BlockType.DATA))
